@@ -30,6 +30,9 @@ impl Check for C04 {
                 let payload = bytes_of_len(ctx, lp);
                 c04_case(ctx, &p, &aad, &payload);
                 built_then_edited_case(ctx, "MAC_structure", &p, &aad, &payload);
+                let p1 = gen_prot_variant(ctx, Origin::Built);
+                reprotect_case(ctx, "MAC_structure", &p1, &p, &aad, &payload);
+                decoded_edited_keeping_bytes_case(ctx, "MAC_structure", &p, &aad, &payload);
                 ctx.sample(|| J::obj(vec![("protected", J::Str(format!("{:?}", p.bytes.as_ref().map(|b| crate::rcbor::hex(b))))), ("aad_len", J::UInt(la as u64)), ("payload_len", J::UInt(lp as u64)), ("outcome", J::s("all helper outputs equal the RFC 8152 MAC_structure; refusals without payload observed"))]));
             }
             1 => {
@@ -53,6 +56,9 @@ impl Check for C04 {
                 let aad = bytes_of_len(ctx, la);
                 let payload = bytes_of_len(ctx, lp);
                 c04_decoded_case(ctx, &p, &aad, &payload);
+                decoded_edited_keeping_bytes_case(ctx, "MAC_structure", &p, &aad, &payload);
+                let empty_wire = MProt { bytes: Some(vec![]), header: MHeader::default() };
+                decoded_edited_keeping_bytes_case(ctx, "MAC_structure", &empty_wire, &aad, &payload);
             }
             _ => {
                 let p = gen_prot_variant(ctx, Origin::Built);
